@@ -300,8 +300,10 @@ Theorem ssize_nonneg : forall t v, 0 <= ssize t v.
 Proof.
   induction t using ty_ind'; intros v; destruct v; cbn [ssize]; try lia.
   - rewrite sk_size_spec. destruct k; cbn [wide]; try apply pb_nonneg; lia.
-  - apply sumZ_nonneg. apply Forall_forall. intros z Hz. apply in_map_iff in Hz. destruct Hz as (x & <- & _).
-    pose proof (packed_size_ge t (ssize t x) (IHt x)). pose proof (IHt x). lia.
+  - destruct (trivial t).
+    + apply Z.mul_nonneg_nonneg; [lia|]. pose proof (packed_size_ge t _ (IHt (hd (VSeq []) l))). pose proof (IHt (hd (VSeq []) l)). lia.
+    + apply sumZ_nonneg. apply Forall_forall. intros z Hz. apply in_map_iff in Hz. destruct Hz as (x & <- & _).
+      pose proof (packed_size_ge t (ssize t x) (IHt x)). pose proof (IHt x). lia.
   - apply sumZ_nonneg. apply Forall_forall. intros z Hz. apply in_map_iff in Hz. destruct Hz as (x & <- & _).
     pose proof (packed_size_ge t (ssize t x) (IHt x)). pose proof (IHt x). lia.
   - apply sumZ_nonneg. apply Forall_forall. intros z Hz. apply in_map_iff in Hz. destruct Hz as (x & <- & _).
@@ -310,8 +312,10 @@ Proof.
     destruct p as [| |[|a [|b [|]]]| |]; try lia.
     pose proof (packed_size_ge t1 _ (IHt1 a)). pose proof (packed_size_ge t2 _ (IHt2 b)).
     pose proof (IHt1 a). pose proof (IHt2 b). lia.
-  - apply sumZ_nonneg. apply Forall_forall. intros z Hz. apply in_map_iff in Hz. destruct Hz as (x & <- & _).
-    pose proof (packed_size_ge t (ssize t x) (IHt x)). pose proof (IHt x). lia.
+  - destruct (trivial t).
+    + apply Z.mul_nonneg_nonneg; [lia|]. pose proof (packed_size_ge t _ (IHt (hd (VSeq []) l))). pose proof (IHt (hd (VSeq []) l)). lia.
+    + apply sumZ_nonneg. apply Forall_forall. intros z Hz. apply in_map_iff in Hz. destruct Hz as (x & <- & _).
+      pose proof (packed_size_ge t (ssize t x) (IHt x)). pose proof (IHt x). lia.
   - apply IHt.
   - revert l. induction H as [|[n ft] fs Hft _ IH]; intros l; [destruct l; lia|].
     destruct l as [|x l]; [lia|]. cbn [snd] in Hft.
@@ -329,30 +333,57 @@ Proof.
     pose proof (packed_size_ge e _ (ssize_nonneg e x)). pose proof (ssize_nonneg e x). lia.
 Qed.
 
-(* a well-shaped value whose serialized size is below 2^31 is well formed (types without hash containers) *)
-Theorem wf_of_wfs : forall t v, no_hash t -> wfs t v -> ssize t v < 2 ^ 31 -> wf t v.
+Lemma trivial_size_wfs : forall t, trivial t = true -> ptr_free t = true -> forall x, wfs t x -> ssize t x = tsize t.
 Proof.
-  induction t using ty_ind'; intros v Hnh Hw Hs; destruct v; cbn [wfs] in Hw; try contradiction; cbn [no_hash] in Hnh;
+  induction t using ty_ind'; intros Ht Hp x Hw; try (cbn in Ht; discriminate); try (cbn in Hp; discriminate).
+  - destruct x; cbn [wfs] in Hw; try contradiction. cbn [ssize]. rewrite sk_size_spec.
+    destruct k; cbn in Ht; try discriminate; reflexivity.
+  - destruct x; cbn [wfs] in Hw; try contradiction. cbn [trivial ptr_free] in Ht, Hp. cbn [ssize tsize].
+    revert l Hw. induction H as [|[n ft] fs Hft _ IH]; intros l Hw; destruct l as [|x l]; try contradiction; [reflexivity|].
+    cbn [forallb snd] in Ht, Hp. apply andb_prop in Ht. apply andb_prop in Hp. destruct Ht as [T1 T2], Hp as [P1 P2].
+    destruct Hw as (Wx & Wr). cbn [fst snd] in *. rewrite (Hft T1 P1 x Wx). f_equal. apply IH; auto.
+Qed.
+Lemma elems_small_triv : forall e l B, trivial e = true -> ptr_free e = true -> Forall (wfs e) l ->
+  Z.of_nat (length l) * packed_size e (ssize e (hd (VSeq []) l)) < B -> Forall (fun x => ssize e x < B) l.
+Proof.
+  intros e l B Ht Hp Hw Hs. destruct l as [|x0 l]; [constructor|]. cbn [hd] in Hs.
+  assert (H0 : ssize e x0 = tsize e) by (inversion Hw; subst; apply trivial_size_wfs; auto). rewrite H0 in Hs.
+  pose proof (ssize_nonneg e x0) as N0. rewrite H0 in N0. pose proof (packed_size_ge e _ N0).
+  assert (packed_size e (tsize e) < B) by (cbn [length] in Hs; nia).
+  apply Forall_forall. intros x Hx. rewrite (trivial_size_wfs e Ht Hp x (proj1 (Forall_forall _ _) Hw x Hx)). lia.
+Qed.
+
+(* a well-shaped value whose serialized size is below 2^31 is well formed (types without hash containers) *)
+Theorem wf_of_wfs : forall t v, ty_ok t -> no_hash t -> wfs t v -> ssize t v < 2 ^ 31 -> wf t v.
+Proof.
+  induction t using ty_ind'; intros v Hok Hnh Hw Hs; destruct v; cbn [wfs] in Hw; try contradiction; cbn [no_hash] in Hnh;
     try contradiction.
   - exact Hw.
   - exact I.
-  - cbn [ssize] in Hs. apply wfs_elems in Hw. cbn [wf]. apply wf_elems. unfold welems.
-    pose proof (elems_small t l _ Hs) as Hsm. apply Forall_forall. intros x Hx.
+  - cbn [ssize] in Hs. apply wfs_elems in Hw. cbn [wf]. apply wf_elems. unfold welems. destruct Hok as [_ Hok].
+    assert (Hsm : Forall (fun x => ssize t x < 2 ^ 31) l).
+    { destruct (trivial t) eqn:Tr; [apply elems_small_triv; auto using trivial_ptr_free|apply elems_small; auto]. }
+    apply Forall_forall. intros x Hx.
     pose proof (proj1 (Forall_forall _ _) Hsm x Hx). pose proof (proj1 (Forall_forall _ _) Hw x Hx).
     split; [apply IHt; auto|exact H].
-  - cbn [ssize] in Hs. apply wfs_elems in Hw. cbn [wf]. apply wf_elems. unfold welems.
+  - cbn [ssize] in Hs. apply wfs_elems in Hw. cbn [wf]. apply wf_elems. unfold welems. destruct Hok as [_ Hok].
     pose proof (elems_small t l _ Hs) as Hsm. apply Forall_forall. intros x Hx.
     pose proof (proj1 (Forall_forall _ _) Hsm x Hx). pose proof (proj1 (Forall_forall _ _) Hw x Hx).
     split; [apply IHt; auto|exact H].
   - cbn [ssize] in Hs. destruct Hw as [Hn Hw]. apply wfs_elems in Hw. cbn [wf]. split; [exact Hn|]. apply wf_elems. unfold welems.
-    pose proof (elems_small t l _ Hs) as Hsm. apply Forall_forall. intros x Hx.
+    destruct Hok as [_ Hok].
+    assert (Hsm : Forall (fun x => ssize t x < 2 ^ 31) l).
+    { destruct (trivial t) eqn:Tr; [apply elems_small_triv; auto using trivial_ptr_free|apply elems_small; auto]. }
+    apply Forall_forall. intros x Hx.
     pose proof (proj1 (Forall_forall _ _) Hsm x Hx). pose proof (proj1 (Forall_forall _ _) Hw x Hx).
     split; [apply IHt; auto|exact H].
   - exact I.
   - cbn [ssize] in Hs. cbn [wf]. apply IHt; auto.
-  - apply no_hash_fields in Hnh. apply wf_agg. apply wfs_agg in Hw. unfold wfs_fields in Hw.
+  - destruct Hok as [_ Hf]. apply ty_ok_fields in Hf.
+    apply no_hash_fields in Hnh. apply wf_agg. apply wfs_agg in Hw. unfold wfs_fields in Hw.
     revert Hs. induction Hw as [|[n ft] x fs l Hx Hr IH]; intros Hs; cbn [wf_fields]; [exact I|].
-    inversion H as [|? ? Hft Hrest]; subst. inversion Hnh as [|? ? Hn1 Hnr]; subst. cbn [fst snd] in *.
+    inversion H as [|? ? Hft Hrest]; subst. inversion Hnh as [|? ? Hn1 Hnr]; subst.
+    inversion Hf as [|? ? [Hnum Hokft] Hfr]; subst. cbn [fst snd] in *.
     rewrite ssize_agg_cons in Hs.
     pose proof (field_size_ge n ft _ (ssize_nonneg ft x)). pose proof (ssize_nonneg (TAgg fs) (VSeq l)).
     pose proof (ssize_nonneg ft x).
